@@ -43,7 +43,7 @@ func (p *Program) PkgScopeNames(pkg int) []string {
 		}
 	}
 	for _, s := range p.Sets {
-		if s.Pkg == pkg {
+		if s.Pkg == pkg && !s.Inline {
 			r = append(r, s.Name)
 		}
 	}
@@ -373,6 +373,13 @@ func (c *fileCtx) valueExpr(it *Item) string {
 func (c *fileCtx) refExpr(r Ref) string {
 	if r.Set >= 0 {
 		s := c.p.Sets[r.Set]
+		if s.Inline {
+			var ms []string
+			for _, m := range s.Members {
+				ms = append(ms, c.refExpr(m))
+			}
+			return c.wire() + ".NewSet(" + strings.Join(ms, ", ") + ")"
+		}
 		return c.q(s.Pkg) + s.Name
 	}
 	return c.itemExpr(c.p.Items[r.Item])
@@ -432,7 +439,7 @@ func (p *Program) Files(withDriver bool) map[string]string {
 		// --- sets (non-inject file)
 		c = newFileCtx(p, pi)
 		for _, s := range p.Sets {
-			if s.Pkg != pi || s.InInjectFile {
+			if s.Pkg != pi || s.InInjectFile || s.Inline {
 				continue
 			}
 			c.renderSet(s)
@@ -473,7 +480,7 @@ func (p *Program) Files(withDriver bool) map[string]string {
 			}
 			if f == 0 {
 				for _, s := range p.Sets {
-					if s.Pkg == 0 && s.InInjectFile {
+					if s.Pkg == 0 && s.InInjectFile && !s.Inline {
 						c.renderSet(s)
 					}
 				}
